@@ -279,13 +279,19 @@ func checkRuns(p *Program, decl []Call, c compiled, vals []string, stream bool, 
 			if ex.mustErr {
 				cls = "a run-time checked mapping meets a value it cannot move"
 			} else if ex.mayErr {
-				cls = "a statically typed source path meets an absent key / nil pointer"
+				cls = "the statement is silent about this input"
 			}
 			sfx := ""
 			if ex.mayErr && !ex.mustErr {
-				sfx = "/statically-typed-source-nil-or-absent" // outside the letter of the statement: own class
+				sfx = "/statement-silent-input" // absent key / nil pointer on a statically typed source path, nil interface as input
 			} else if !ex.mustErr {
-				sfx = "/on-valid-input"
+				depth := 0
+				for _, it := range p.Items {
+					if len(it.To) > depth {
+						depth = len(it.To)
+					}
+				}
+				sfx = fmt.Sprintf("/on-valid-input/target-depth-%d", depth)
 			}
 			sig := runSig("panic-out-of-run", p, stream, errClass(o.Panic))
 			if strings.HasPrefix(sig, "panic-out-of-run") {
